@@ -1441,11 +1441,12 @@ def is_method_name(s):
     return And(nul_free(s), s.length() > 0)
 
 
-def mint_then_exchange(S, shapes=("none", "dp"), vary=True, same_shape=False, on_accept=None):
+def mint_then_exchange(S, shapes=("none", "dp"), vary=True, same_shape=False, on_accept=None, same_method=False):
     S.prune_lia = True
     install_clock(S)
     quiet_hooks(S)
-    m1, m2 = S.str("minting_method"), S.str("exchange_method")
+    m1 = S.str("minting_method")
+    m2 = m1 if same_method else S.str("exchange_method")
     S.assume(And(is_method_name(m1), is_method_name(m2)))
     sh1 = shapes[S.choose(len(shapes))]
     a1, i1 = mk_auth(S, "1", sh1)
@@ -1602,7 +1603,8 @@ def replay_end_to_end(inputs, ob):
     same identity and the same method."""
     from vgi_rpc.rpc import AuthContext as AC
 
-    m1, m2 = inputs.get("minting_method", "a"), inputs.get("exchange_method", "b")
+    m1 = inputs.get("minting_method", "a")
+    m2 = inputs.get("exchange_method", m1)
     same_method = m1 == m2
     ids = []
     for tag in ("1", "2"):
@@ -1643,7 +1645,8 @@ def end_to_end_identity(S):
     def accepted(S, R):
         S.lemma("L8.a_cursor_token_opens_only_for_the_identity_it_was_minted_for", same_identity(R["i1"], R["i2"]))
 
-    R = mint_then_exchange(S, vary=False, on_accept=accepted)  # continuation / exchange / cancel variants: C12.O6b and C13
+    # the same method on both sides (cross-method presentation is C13's question); continuation / cancel variants: O6b
+    R = mint_then_exchange(S, vary=False, on_accept=accepted, same_method=True)
     S.oblige("L8.init_mints_one_cursor_and_one_call_token", R["minted"].returned and len(R["cur"]) == 1 and len(R["call"]) == 1, kind="trace")
     if "out" not in R:
         return
